@@ -64,6 +64,12 @@ def plan(tier):
 # ------------------------------------------------------------------------------------------ generation
 
 def gen(rng, index, tier):
+    if index % 12 == 5:
+        from sim import corpus
+        name = rng.choice(sorted(corpus.OK))
+        stl = corpus.OK[name][0]
+        return {'kind': 'assembled', 'program': name, 'w': rng.choice([32, 64]) if stl else rng.choice([8, 16, 32, 64]),
+                'version': rng.choice([0, 1, 2, 3, 3]), 'preset': 6, 'calls': [], 'seed': rng.getrandbits(32)}
     w = rng.choice([8, 16, 32, 64])
     version = rng.choice([0, 1, 2, 3])
     mw = 1 << (w - (w.bit_length() - 1))
@@ -217,6 +223,26 @@ def build_file(case):
     from flipjump.utils.exceptions import FlipJumpException
     FS.reset_log()
     FS.plan = None
+    if case.get('kind') == 'assembled':
+        import contextlib
+        import io as _io
+        import flipjump
+        from sim import corpus, case as C
+        stl, texts = corpus.OK[case['program']]
+        d = C.scratch_dir() / 'c10src'
+        d.mkdir(exist_ok=True)
+        paths = []
+        for i, t in enumerate(texts):
+            p = d / f"{case['program']}_{i}.fj"
+            p.write_text(t)
+            paths.append(p)
+        try:
+            with contextlib.redirect_stdout(_io.StringIO()):
+                flipjump.assemble(paths, '/simfs/f.fjm', memory_width=case['w'], use_stl=stl,
+                                  fjm_version=FJMVersion(case['version']), print_time=False)
+        except FlipJumpException:
+            return None, None
+        return FS.files['/simfs/f.fjm'], list(FS.write_calls.get('/simfs/f.fjm', []))
     try:
         wr = Writer('/simfs/f.fjm', case['w'], FJMVersion(case['version']), lzma_preset=case['preset'])
         for c in case['calls']:
